@@ -16,6 +16,7 @@ def K(v): return {"e": "const", "v": v}
 def Add(l, r): return {"e": "add", "l": l, "r": r}
 def Sub(l, r): return {"e": "sub", "l": l, "r": r}
 def Mul(l, r): return {"e": "mul", "l": l, "r": r}
+def Div(l, r): return {"e": "div", "l": l, "r": r}
 def C(op, l, r): return {"c": op, "l": l, "r": r}
 def CV(n): return {"c": "var", "n": n}
 def Asg(n, e): return {"s": "assign", "n": n, "e": e}
@@ -38,6 +39,12 @@ def templates(tier):
     # nesting
     T.append(("nested", [If([(conds[0], [If([(conds[1], [Asg("z", K(1))])], [Asg("z", K(2))]), Asg("y", Add(V("z"), K(1)))])], [If([(conds[3], [Asg("y", K(9))])])])]))
     T.append(("nested2", [If([(conds[3], [Asg("x", Add(V("x"), K(1))), If([(C("gt", V("x"), V("y")), [Asg("y", V("x"))])])])]), Asg("z", Add(V("y"), V("x")))]))
+    # value-dependent operations in branches that may be dead: x is halved only when it is even (y = x mod 2 is an input);
+    # in the branch that is NOT taken the division is inexact and the comparison operands may be out of range
+    even = C("eq", V("y"), K(0))
+    T.append(("divif", [If([(even, [Asg("z", Div(V("x"), K(2)))])], [Asg("z", Div(Sub(V("x"), K(1)), K(2)))])]))
+    T.append(("divnested", [If([(CV("f"), [If([(even, [Asg("z", Div(V("x"), K(2))), If([(C("lt", V("z"), K(1)), [Asg("z", K(9))])])])])])], [Asg("z", K(-1))])]))
+    T.append(("divfor", [If([(CV("f"), [For("i", V("y"), 2, [If([(C("eq", Mul(V("x"), K(1)), Mul(Div(V("x"), K(3)), K(3))), [Asg("z", Add(V("z"), K(1)))])])])])])]))
     # sequences of writes / reads inside a branch, multiplication
     T.append(("seq", [If([(conds[0], [Asg("x", Mul(V("x"), V("y"))), Asg("y", Add(V("x"), K(1))), Asg("x", K(0))])], [Asg("z", Mul(V("z"), K(2)))]), Asg("y", Add(V("y"), V("z")))]))
     # for loops over a secret bound
@@ -68,6 +75,14 @@ def inputs_for(name, tier):
     ys = [-1, 0, 2] if tier == "quick" else [-2, -1, 0, 1, 2, 3]
     zs = [0, 1, 2] if tier == "quick" else [-1, 0, 1, 2, 3]
     fs = [0, 1]
+    if name.startswith("div"):
+        xs = [v for v in xs if v >= 0]
+        ys = [0, 1]
+        for x, z, f in itertools.product(xs, zs, fs):
+            if name.startswith("divfor") and x % 3:
+                continue
+            yield {"x": x, "y": x % 2 if not name.startswith("divfor") else 1, "z": z, "f": f}
+        return
     if name.startswith("for") or name.startswith("iffor"):
         xs = [v for v in xs if v >= 0]
         zs = [v for v in zs if v >= 0]
@@ -82,7 +97,7 @@ def main(tier):
     for ti, (name, prog) in enumerate(templates(tier)):
         name = "%s.%d" % (name, ti)
         for k, inp in enumerate(inputs_for(name, tier)):
-            if not name.startswith(("elif", "nested", "if", "seq")) and inp["f"] == 1 and name != "iffor":
+            if not name.startswith(("elif", "nested", "if", "seq", "div")) and inp["f"] == 1 and name != "iffor":
                 continue
             for fty in ("int", "bool") if any(t in name for t in ("if", "elif", "nested")) and k % 3 == 0 else ("int",):
                 spec = {n: {"v": v, "ty": "int"} for n, v in inp.items()}
